@@ -238,6 +238,9 @@ func H_C04_KV() {
 		vAssert(id+".b", vAnd(!gb.getErr, len(gb.getVal) == 1 && vEqBytes(gb.getVal, vb2)))
 	}
 	own("c04.two-bucket-tx-own-values", db)
+	// everything each bucket shows for the keys used above must survive the reopen unchanged (recovery
+	// re-reads the records of both buckets from one log)
+	pre := []c04Obs{c04Observe(db, B, kb), c04Observe(db, B, ka), c04Observe(db, A, ka), c04Observe(db, A, kb)}
 	vAssert("c04.close", db.Close() == nil)
 	db2, err := Open(vOpts(db.opt.Dir, mode, FileIO, 4096))
 	vAssert("c04.reopen", err == nil)
@@ -245,6 +248,12 @@ func H_C04_KV() {
 		return
 	}
 	own("c04.two-bucket-tx-own-values-after-reopen", db2)
+	post := []c04Obs{c04Observe(db2, B, kb), c04Observe(db2, B, ka), c04Observe(db2, A, ka), c04Observe(db2, A, kb)}
+	same := true
+	for i := range pre {
+		same = vAnd(same, c04Same(pre[i], post[i]))
+	}
+	vAssert("c04.both-buckets-unchanged-by-reopen", same)
 	db2.Close()
 }
 
